@@ -1,6 +1,7 @@
 package stdlib
 
 import (
+	"math"
 	. "rare/pkg/expressions" //lint:ignore ST1001 Legacy
 	"rare/pkg/slicepool"
 	"rare/pkg/stringSplitter"
@@ -275,6 +276,10 @@ func kfArrayRange(args []KeyBuilderStage) (KeyBuilderStage, error) {
 				sb.WriteRune(ArraySeparator)
 			}
 			sb.WriteString(strconv.Itoa(i))
+
+			if (incr > 0 && i > math.MaxInt-incr) || (incr < 0 && i < math.MinInt-incr) {
+				break // next step would wrap around and never reach stop
+			}
 		}
 
 		return sb.String()
